@@ -289,10 +289,8 @@ class CGMYModel(LevyModel):
     def __init__(self, parameters: CGMYParameters):
         self.parameters = parameters
         cumulant = _CGMYCumulant(drift=0, parameters=parameters)
-        if parameters.y < 0.0:
-            representation = LevyRepresentation.ZERO
-        else:
-            representation = LevyRepresentation.CENTER
+        # the Lévy exponent below is compensated by the mean for every y (drift 0 = mean 0): center representation
+        representation = LevyRepresentation.CENTER
 
         triplet = LevyTriplet(
             a=0,
@@ -314,15 +312,18 @@ class CGMYModel(LevyModel):
         c, g, m, y = p.c, p.g, p.m, p.y
 
         res = 0
+        # the triplet is declared in the center representation: every branch is the exponent compensated by its mean
         if y == 0:
-            res += -c * (np.log(1 + x / g) + np.log(1 - x / m))
+            res += -c * (np.log(1 + x / g) + np.log(1 - x / m)) - c * x * (
+                1 / m - 1 / g
+            )
         elif y == 1.0:
             res += c * (
                 (g + x) * np.log(g + x)
                 - g * np.log(g)
                 + (m - x) * np.log(m - x)
                 - m * np.log(m)
-            )
+            ) - c * x * (np.log(g) - np.log(m))
         else:
             # adjustment for y >= 0 because of the center representation
             # see for example equation (2.4) in "Monte Carlo option pricing for tempered stable (CGMY) processes"
